@@ -8,7 +8,9 @@ S2 == {<<0, 0>>, <<255, 255>>, <<1, 2>>}
 V4 == {<<<<0, 0, 0, 0>>, 0, 0>>, <<<<0, 0, 0, 0>>, 0, 32>>, <<<<192, 0, 2, 0>>, 24, 24>>, <<<<192, 0, 2, 0>>, 24, 32>>, <<<<255, 255, 255, 255>>, 32, 32>>}
 V6 == {<<[i \in 1..16 |-> 0], 0, 128>>, <<<<32, 1, 13, 184, 0, 0, 0, 0, 0, 0, 0, 0, 0, 0, 0, 0>>, 32, 48>>, <<[i \in 1..16 |-> 255], 128, 128>>}
 Infos == {<<>>, <<7>>, [i \in 1..91 |-> i]}
-Provs == {<<>>, <<0, 0, 253, 233>>, <<0, 0, 253, 233, 255, 255, 255, 255>>}
+\* no provider, one, two, and the largest provider sets the PDU can carry (16379 and 16380 = ProviderAsns::MAX_COUNT)
+Provs == {<<>>, <<0, 0, 253, 233>>, <<0, 0, 253, 233, 255, 255, 255, 255>>,
+          [i \in 1..(4 * 16379) |-> IF i % 4 = 0 THEN 7 ELSE 0], [i \in 1..(4 * 16380) |-> IF i % 4 = 0 THEN 7 ELSE 0]}
 Pdus ==
        {[t |-> "serial_notify", ver |-> v, sess |-> s, serial |-> x] : v \in 0..2, s \in S2, x \in A4}
   \cup {[t |-> "serial_query", ver |-> v, sess |-> s, serial |-> x] : v \in 0..2, s \in S2, x \in A4}
